@@ -21,7 +21,7 @@ import sympy as sp
 from ..core import AnchorMissing, Check, Undecided, calls_in, dotted, kwarg, own_nodes, src, walk_guarded
 from ..flow import CFG
 from ..hydro import n, same_term
-from ..nf import Ctx, eqx, has, match, same
+from ..nf import Ctx, eqx, has, match, nf, same
 from ..terms import Extractor, SUM, is_zero
 
 LEVEL = "other"
@@ -168,6 +168,13 @@ def _role_map(fi, outer: dict | None = None) -> dict:
     for p in fi.params():
         roles[p] = _base(p)
     assigned: dict[str, list] = {}
+    # single-assignment locals holding a call result (`res = self.f(...)` followed by `a, b = res`)
+    stores: dict[str, list] = {}
+    for st in own_nodes(fi.node):
+        if isinstance(st, ast.Name) and isinstance(st.ctx, ast.Store):
+            stores.setdefault(st.id, []).append(st)
+    temps = {st.targets[0].id: st.value for st in own_nodes(fi.node) if isinstance(st, ast.Assign) and len(st.targets) == 1 and isinstance(st.targets[0], ast.Name)
+             and isinstance(st.value, ast.Call) and len(stores.get(st.targets[0].id, [])) == 1}
 
     def add(name, what):
         assigned.setdefault(name, []).append(what)
@@ -190,6 +197,8 @@ def _role_map(fi, outer: dict | None = None) -> dict:
             if isinstance(t, ast.Name):
                 add(t.id, ("expr", v))
             elif isinstance(t, (ast.Tuple, ast.List)):
+                if isinstance(v, ast.Name) and v.id in temps:
+                    v = temps[v.id]
                 short = (dotted(v.func) or "").split(".")[-1] if isinstance(v, ast.Call) else ""
                 for i, e in enumerate(t.elts):
                     if isinstance(e, ast.Name):
@@ -206,8 +215,12 @@ def _role_map(fi, outer: dict | None = None) -> dict:
     def expr_role(v):
         if isinstance(v, ast.Name):
             return roles.get(v.id)
-        if isinstance(v, ast.BinOp) and isinstance(v.op, ast.Sub) and isinstance(v.left, ast.Name):
-            return {"c1": "s1", "c2": "s2"}.get(roles.get(v.left.id))
+        if isinstance(v, ast.BinOp):
+            # boundary constant minus the out-of-equilibrium stress (any spelling of `c - out` / `c - out[k]`)
+            b = match(v, "__c - __o") or match(v, "__c - __o[0]") or match(v, "__c - __o[1]")
+            return {"c1": "s1", "c2": "s2"}.get(roles.get(b["c"])) if b else None
+        if isinstance(v, ast.Call) and isinstance(v.func, ast.Attribute) and v.func.attr == "getFieldPoint" and isinstance(v.func.value, ast.Name):
+            return roles.get(v.func.value.id)          # one point of a profile keeps the profile's role
         if isinstance(v, ast.Attribute) and v.attr == "fieldsAtMinimum" and isinstance(v.value, ast.Call):
             d = dotted(v.value.func) or ""
             return "vevLowT" if d.endswith(".freeEnergyLow") else "vevHighT" if d.endswith(".freeEnergyHigh") else None
@@ -266,6 +279,9 @@ def r04_3(chk: Check, P: "_Point"):
                     continue
                 callee = methods[c.func.attr]
                 params = _params(callee)
+                # an extracted helper (straight-line body + one return, looked through by every other rule) whose parameters declare no role
+                # does not take part in the nominal role discipline: what it does with its arguments is judged where it is inlined
+                formal = Ctx(S, fi).helper_body(c) is not None and not any(_base(p) in ROLE_NAMES for p in params)
                 bad = []
                 checked = 0
                 pairs = list(zip(params, c.args)) + [(k.arg, k.value) for k in c.keywords if k.arg]
@@ -274,7 +290,7 @@ def r04_3(chk: Check, P: "_Point"):
                         continue
                     role_a = roles.get(a.id)
                     base_p = _base(p)
-                    if base_p in ROLE_NAMES or role_a in ROLE_NAMES:
+                    if base_p in ROLE_NAMES or (role_a in ROLE_NAMES and not formal):
                         checked += 1
                         if role_a != base_p:
                             bad.append(f"parameter `{p}` receives `{a.id}` ({'role ' + role_a if role_a else 'no role established'})")
@@ -285,13 +301,13 @@ def r04_3(chk: Check, P: "_Point"):
     fw = S.func(f"{EOM}.wallPressure")
     chk.touch(fw.name)
     cw = Ctx(S, fw)
-    unp = [st for st in own_nodes(fw.node) if isinstance(st, ast.Assign) and isinstance(st.value, ast.Call)
-           and eqx(st.value.func, "self.hydrodynamics.findHydroBoundaries") and isinstance(st.targets[0], ast.Tuple)]
-    ok = len(unp) == 1 and len(unp[0].targets[0].elts) == 5 and all(isinstance(e, ast.Name) for e in unp[0].targets[0].elts) \
-        and eqx(kwarg(unp[0].value, "vwTry", 0), _params(fw)[0], cw)
+    unp = [(st, cw.resolve(st.value, helpers=False)) for st in own_nodes(fw.node) if isinstance(st, ast.Assign) and isinstance(st.targets[0], ast.Tuple)]
+    unp = [(st, v) for st, v in unp if isinstance(v, ast.Call) and eqx(v.func, "self.hydrodynamics.findHydroBoundaries")]
+    ok = len(unp) == 1 and len(unp[0][0].targets[0].elts) == 5 and all(isinstance(e, ast.Name) for e in unp[0][0].targets[0].elts) \
+        and eqx(kwarg(unp[0][1], "vwTry", 0), _params(fw)[0], cw)
     if ok:
         # the element at position i is handed on under the role of position i (at least once; every hand-over is checked above)
-        names = [e.id for e in unp[0].targets[0].elts]
+        names = [e.id for e in unp[0][0].targets[0].elts]
         handed = {}
         for c in own_nodes(fw.node):
             if isinstance(c, ast.Call) and isinstance(c.func, ast.Attribute) and isinstance(c.func.value, ast.Name) and c.func.value.id == "self" and c.func.attr in methods:
@@ -299,7 +315,7 @@ def r04_3(chk: Check, P: "_Point"):
                 for p, a in list(zip(prm, c.args)) + [(k.arg, k.value) for k in c.keywords if k.arg]:
                     if isinstance(a, ast.Name):
                         handed.setdefault(a.id, set()).add(_base(p))
-        ok = len(set(names)) == 5 and all(handed.get(nm) == {role} for nm, role in zip(names, RET_ROLES["findHydroBoundaries"]))
+        ok = len(set(names)) == 5 and all(handed.get(nm, set()) & ROLE_NAMES == {role} for nm, role in zip(names, RET_ROLES["findHydroBoundaries"]))
     chk.ob("R04.3", fw.where(), "wallPressure unpacks findHydroBoundaries(wallVelocity) as (c1, c2, T+, T-, vMid), its return order", ok, key="unpack")
     fo = S.func(f"{EOM}.findPlasmaProfile")
     chk.touch(fo.name)
@@ -312,11 +328,19 @@ def r04_3(chk: Check, P: "_Point"):
         b = match(call[0], f"self.findPlasmaProfilePoint(__i, {c1}, {c2}, {vmid}, {fields}.getFieldPoint(__i), {dphi}.getFieldPoint(__i), {deltas}, {tp}, {tm})",
                   _LoopCtx(S, fo))
         # the index is the variable of the grid loop around the call
-        ok = b is not None and any(isinstance(lp, ast.For) and isinstance(lp.target, ast.Name) and lp.target.id == b["i"] and any(y is call[0] for y in ast.walk(lp))
-                                   for lp in own_nodes(fo.node))
+        ok = b is not None and any(isinstance(lp, ast.For) and any(y is call[0] for y in ast.walk(lp)) and _grid_index(lp, co) == b["i"] for lp in own_nodes(fo.node))
     chk.ob("R04.3", fo.where(), "findPlasmaProfile solves every grid index with that index's field point, gradient and moments", ok,
            n(call[0])[:200] if call else "", key="per-point")
     chk.floor("R04.3", 8)
+
+
+def _grid_index(lp: ast.For, cx=None):
+    """the name that runs over the grid indices in `for i in range(len(self.grid.xiValues))` / `for i, x in enumerate(self.grid.xiValues)`"""
+    if isinstance(lp.target, ast.Name) and eqx(lp.iter, "range(len(self.grid.xiValues))", cx):
+        return lp.target.id
+    if isinstance(lp.target, ast.Tuple) and len(lp.target.elts) == 2 and isinstance(lp.target.elts[0], ast.Name) and eqx(lp.iter, "enumerate(self.grid.xiValues)", cx):
+        return lp.target.elts[0].id
+    return None
 
 
 class _LoopCtx(Ctx):
@@ -330,9 +354,17 @@ class _LoopCtx(Ctx):
         fn = self.fi.node
         count: dict[str, int] = {}
         for x in own_nodes(fn):
-            for t in ast.walk(x) if isinstance(x, (ast.Assign, ast.AugAssign, ast.AnnAssign, ast.For, ast.With, ast.NamedExpr, ast.comprehension)) else []:
-                if isinstance(t, ast.Name) and isinstance(t.ctx, ast.Store):
-                    count[t.id] = count.get(t.id, 0) + 1
+            if isinstance(x, ast.Name) and isinstance(x.ctx, (ast.Store, ast.Del)):
+                count[x.id] = count.get(x.id, 0) + 1
+            elif isinstance(x, ast.AugAssign) and isinstance(x.target, ast.Name):
+                count[x.target.id] = count.get(x.target.id, 0) + 1
+            elif isinstance(x, (ast.Global, ast.Nonlocal)):
+                for nm in x.names:
+                    count[nm] = count.get(nm, 0) + 2
+        for x in ast.walk(fn):                  # names rebound by closures are never temporaries
+            if isinstance(x, ast.Nonlocal):
+                for nm in x.names:
+                    count[nm] = count.get(nm, 0) + 2
         params = set(self.fi.params())
         for lp in own_nodes(fn):
             if not isinstance(lp, ast.For):
@@ -342,7 +374,8 @@ class _LoopCtx(Ctx):
                     nm = st.targets[0].id
                     used_before = any(isinstance(y, ast.Name) and y.id == nm for s0 in lp.body[:lp.body.index(st)] for y in ast.walk(s0))
                     operands = {y.id for y in ast.walk(st.value) if isinstance(y, ast.Name)}
-                    stable = all(count.get(o, 0) == 0 or (isinstance(lp.target, ast.Name) and o == lp.target.id and count.get(o) == 1) for o in operands)
+                    loopvars = {y.id for y in ast.walk(lp.target) if isinstance(y, ast.Name)}
+                    stable = all(count.get(o, 0) == 0 or (o in loopvars and count.get(o) == 1) for o in operands)
                     if count.get(nm) == 1 and nm not in params and not used_before and stable and not any(isinstance(y, ast.Call) and not isinstance(y.func, ast.Attribute) for y in ast.walk(st.value)):
                         defs[nm] = st.value
         self._defs = defs
@@ -469,8 +502,7 @@ def _unwrap(e):
     while True:
         if isinstance(e, ast.Call) and (dotted(e.func) or "") in ("np.array", "np.asarray", "np.atleast_1d") and len(e.args) == 1 and not e.keywords:
             e = e.args[0]
-        elif isinstance(e, ast.Call) and isinstance(e.func, ast.Attribute) and e.func.attr == "view" and dotted(e.func) is None or \
-                (isinstance(e, ast.Call) and isinstance(e.func, ast.Attribute) and e.func.attr == "view" and (dotted(e.func) or "").split(".")[0] not in ("np", "numpy")):
+        elif isinstance(e, ast.Call) and isinstance(e.func, ast.Attribute) and e.func.attr == "view" and (dotted(e.func) or "x").split(".")[0] not in ("np", "numpy"):
             e = e.func.value
         elif isinstance(e, (ast.List, ast.Tuple)) and len(e.elts) == 1:
             e = e.elts[0]
@@ -498,22 +530,33 @@ def r04_5(chk: Check):
     TP, VP, F = TPn.pop(), VPn.pop(), Fn.pop()
     prm = _params(fi)
     VL, VH, VMID, TPL, TMI = prm[1], prm[2], prm[5], prm[7], prm[8]
+    # every three-part concatenation of the function (also behind a temporary or an extracted helper), classified by its middle part
+    bg = [c for c in calls_in(fi.node, "BoltzmannBackground")]
+    roots = [st.value for st in own_nodes(fi.node) if isinstance(st, (ast.Assign, ast.AnnAssign)) and st.value is not None] + [a for c in bg for a in list(c.args) + [k.value for k in c.keywords]]
     cats = {}
-    for c in calls_in(fi.node, "concatenate"):
-        if eqx(c.func, "np.concatenate") and c.args and isinstance(c.args[0], (ast.Tuple, ast.List)) and len(c.args[0].elts) == 3:
-            parts = [_unwrap(ci.resolve(e, keep={TP, VP, F})) for e in c.args[0].elts]
-            kind = "T" if eqx(parts[1], TP) else "v" if eqx(parts[1], VP) else "fields" if eqx(parts[1], F) else None
-            if kind and kind not in cats:
-                cats[kind] = (c, parts)
-            elif kind:
-                cats[kind] = (None, [])
+    seen_nf = set()
+    for root in roots:
+        r = ci.resolve(root, keep={TP, VP, F})
+        for c in ast.walk(r):
+            if isinstance(c, ast.Call) and (eqx(c.func, "np.concatenate") or eqx(c.func, "np.hstack")) and c.args and isinstance(c.args[0], (ast.Tuple, ast.List)) and len(c.args[0].elts) == 3:
+                key = nf(c, ci)
+                if key in seen_nf:
+                    continue
+                seen_nf.add(key)
+                parts = [_unwrap(e) for e in c.args[0].elts]
+                kind = "T" if eqx(parts[1], TP) else "v" if eqx(parts[1], VP) else "fields" if eqx(parts[1], F) else None
+                if kind == "fields" and not eqx(c.func, "np.concatenate"):
+                    kind = None          # hstack joins one-dimensional parts only like concatenate
+                if kind and kind not in cats:
+                    cats[kind] = (c, parts)
+                elif kind:
+                    cats[kind] = (None, [])
     want = {"TWithEndpoints": ("T", TMI, "temperatureProfile", TPL), "fieldsWithEndpoints": ("fields", VL, "fields", VH),
             "vWithEndpoints": ("v", f"{VP}[0]", "velocityProfile", f"{VP}[-1]")}
     for k, (kind, a, b, c) in want.items():
         call, e = cats.get(kind, (None, []))
         ok = call is not None and len(e) == 3 and eqx(e[0], a) and eqx(e[2], c)
         chk.ob("R04.5", fi.where(), f"{k} = ({a}, {b}, {c}): behind-the-wall value first, in-front value last", ok, str([n(x) for x in e]), key=f"orientation|{k}")
-    bg = [c for c in calls_in(fi.node, "BoltzmannBackground")]
     ok = len(bg) == 1 and eqx(kwarg(bg[0], "velocityMid", 0), VMID, ci)
     if ok:
         for pname, pos, kind in (("velocityProfile", 1, "v"), ("fieldProfiles", 2, "fields"), ("temperatureProfile", 3, "T")):
@@ -547,8 +590,8 @@ def r04_6(chk: Check, P: "_Point"):
             other.append(c)
     chk.ob("R04.6", fp.where(), "every evaluation of the residual in findPlasmaProfilePoint uses this point's data", not other,
            "; ".join(n(c) for c in other), key="same-data")
-    ok = len(mn) == 1 and same_term(S, "equationOfMotion", "EOM", cx.resolve(kwarg(mn[0], "bounds", 2)) if kwarg(mn[0], "bounds", 2) is not None else None,
-                                    f"[0, 2 * max({P.TP}, {P.TM})]") if len(mn) == 1 and kwarg(mn[0], "bounds", 2) is not None else False
+    bnd = kwarg(mn[0], "bounds", 2) if len(mn) == 1 else None
+    ok = bnd is not None and same_term(S, "equationOfMotion", "EOM", cx.resolve(bnd), f"[0, 2 * max({P.TP}, {P.TM})]")
     chk.ob("R04.6", fp.where(), "the minimum is searched on [0, 2 max(T+, T-)]", bool(ok), key="min-bounds")
     # bracket (A, B): A starts at the minimiser and B = A * factor; both are moved by the same factor while residual(B) < 0
     ok = False
@@ -605,8 +648,10 @@ def r04_6(chk: Check, P: "_Point"):
             dd = g.reaching_defs(r, vel.id)
             if len(dd) == 1 and isinstance(dd[0], ast.Assign) and isinstance(dd[0].targets[0], ast.Name):
                 at, vel = dd[0], dd[0].value
-        good = isinstance(vel, ast.Call) and eqx(vel.func, "self.plasmaVelocity") and isinstance(t, ast.Name) and eqx(kwarg(vel, "T", 1), t.id) \
-            and (at is r or {id(d) for d in g.reaching_defs(at, t.id)} == {id(d) for d in g.reaching_defs(r, t.id)})
+        # ... evaluated at the returned temperature: the same expression, with the same definitions of its names reaching both places
+        good = isinstance(vel, ast.Call) and eqx(vel.func, "self.plasmaVelocity") and kwarg(vel, "T", 1) is not None and same(kwarg(vel, "T", 1), t) \
+            and (at is r or all({id(d) for d in g.reaching_defs(at, nm)} == {id(d) for d in g.reaching_defs(r, nm)}
+                                for nm in {x.id for x in ast.walk(t) if isinstance(x, ast.Name)}))
         okv = okv and good
     chk.ob("R04.6", fp.where(), "the returned velocity is plasmaVelocity(fields, T, s1) at the returned temperature", okv and nret >= 1, key="velocity")
     chk.floor("R04.6", 5)
@@ -622,5 +667,13 @@ def rules(chk: Check) -> None:
     # the out-of-equilibrium stress components subtracted from c1, c2 are the direct moment expressions (shared with C13)
     from ..core import Remap
     from .c13 import r13_2
-    r13_2(Remap(chk, {"R13.2": "R04.7"}))
+    # (the two caller-side clauses of r13_2 address locals of findPlasmaProfilePoint by their spelling; they are decided here by role instead)
+    r13_2(Remap(chk, {"R13.2": "R04.7"}, only=lambda rule, key, where: key not in ("pairing|c1c2", "call-args")))
+    fp, cx = P.fp, P.cx
+    ok = all(eqx(kwarg(c, "s1", 3), P.S1, cx) and eqx(kwarg(c, "s2", 4), P.S2, cx) for c in P.lhs_calls)
+    chk.ob("R04.7", fp.where(), "T30 is subtracted from c1 and T33 from c2 (tuple positions 0 and 1 of deltaToTmunu)", ok, f"s1 = {P.S1}; s2 = {P.S2}", key="R13.2|pairing|c1c2")
+    dc = [c for c in calls_in(fp.node, "deltaToTmunu")]
+    prm = _params(fp)
+    ok = len(dc) == 1 and all(eqx(kwarg(dc[0], nm, i), prm[j], cx) for nm, i, j in (("index", 0, 0), ("fields", 1, 4), ("velocityMid", 2, 3), ("offEquilDeltas", 3, 6)))
+    chk.ob("R04.7", fp.where(), "deltaToTmunu is called with (index, fields, velocityMid, offEquilDeltas)", ok, n(dc[0]) if dc else "", key="R13.2|call-args")
     chk.floor("R04.7", 4)
